@@ -41,7 +41,7 @@ class SwitchController(MpfController):
     config_name = "switch_controller"
 
     __slots__ = ["registered_switches", "_timed_switch_handler_delay", "_active_timed_switches",
-                 "_switch_lookup", "monitors", "_initialized"]
+                 "_switch_lookup", "monitors", "_initialized", "_change_serial"]
 
     def __init__(self, machine: MachineController) -> None:
         """Initialize switch controller."""
@@ -51,6 +51,10 @@ class SwitchController(MpfController):
         # callbacks.
 
         self._timed_switch_handler_delay = dict()               # type: Any
+
+        self._change_serial = dict()                            # type: Dict[Switch, int]
+        # Number of state changes processed per switch. Lets a walk over the handlers of one change notice that one
+        # of its callbacks has reported the next change of the same switch already.
 
         self._active_timed_switches = {}                        # type: Dict[str, Dict[float, List[TimedSwitchHandler]]]
         # Dictionary of switches that are currently in a state counting ms
@@ -366,6 +370,7 @@ class SwitchController(MpfController):
         # update the switch device
         obj.state = state
         obj.last_change = timestamp
+        self._change_serial[obj] = self._change_serial.get(obj, 0) + 1
 
         muted_state = "(muted) " if obj.is_muted else ""
         if state:
@@ -482,6 +487,7 @@ class SwitchController(MpfController):
             self._timed_switch_handler_delay[switch] = (handler, next_event_time)
 
     def _call_handlers(self, switch, state):
+        serial = self._change_serial.get(switch)
         for entry in self.registered_switches[switch][state][:]:  # generator?
             # Found an entry.
 
@@ -490,6 +496,10 @@ class SwitchController(MpfController):
                 continue
 
             if entry.ms:
+                # a callback of this walk has reported the next change of this switch already (it may even be back
+                # in this state): the hold times of this change are void, the newer change has set up its own
+                if self._change_serial.get(switch) != serial:
+                    continue
                 # This entry is for a timed switch, so add it to our
                 # active timed switch list
                 key = switch.last_change + (entry.ms / 1000.0)
